@@ -110,6 +110,19 @@ func generate(w *mon.W) {
 				alt("`" + part + "`")
 			}
 		}
+		// every word respelled as a near miss of itself (an operator name that is
+		// almost right is not that operator)
+		for i, part := range parts {
+			c := part[0]
+			if !(c >= 'a' && c <= 'z' || c >= 'A' && c <= 'Z') || len(part) < 2 {
+				continue
+			}
+			for _, alt := range []string{part + "s", part + "_", part[:len(part)-1], part[:len(part)-1] + "s", part[:len(part)-1] + "z", strings.ToUpper(part[:1]) + part[1:], part[:1] + part, part + part[len(part)-1:]} {
+				t := append([]string{}, parts...)
+				t[i] = alt
+				do(join(t))
+			}
+		}
 		// every token replaced by each punctuation mark, operator and keyword
 		for i := range parts {
 			for _, v := range []string{",", "=", "|", "by", "]", ")", "(", "[", ";", ".", "and", "==", "-", "in"} {
